@@ -553,12 +553,25 @@ K1_TEXT = "marked-only mode is on, the flow is not marked and matches the filter
 
 @scenario("add", functions=[V + ".add", V + "._base_add", "mitmproxy.addons.view:_OrderKey.__call__", FOCUS + "._sig_view_add", FOCUS + ".flow", SETTINGS + ".__getitem__"])
 def s_add(vc):
-    st = mk_state(vc, ["absent", "hidden", "visible"])
+    _add_contract(vc, "t")
+
+
+@scenario("add.repeated", functions=[V + ".add", V + "._base_add", "mitmproxy.addons.view:_OrderKey.__call__", FOCUS + "._sig_view_add", FOCUS + ".flow", SETTINGS + ".__getitem__"])
+def s_add_repeated(vc):
+    """one add() call whose batch names the same flow object more than once (aliasing inside the argument): [t, t] and [t, u, t]
+    with u an already stored flow. The contract is the same as for add([t]): stored once, shown at most once, one notification."""
+    _add_contract(vc, vc.case("batch", ["tt", "tut"]))
+
+
+def _add_contract(vc, batch):
+    st = mk_state(vc, ["absent", "hidden", "visible"], combos=ALL_COMBOS if batch == "t" else TWO_COMBOS)
     t = st.flows[0]
     before = st.view_items()
     stored_before = st.store_ids()
     foc_before = st.focus_flow()
-    out = vc.call(V + ".add", st.view, vc.list([t]))
+    u = st.flows[1] if st.states[1] != "absent" else t      # an already stored other flow (else the flow itself a third time)
+    flows = {"t": [t], "tt": [t, t], "tut": [t, u, t]}[batch]
+    out = vc.call(V + ".add", st.view, vc.list(flows))
     vc.ensure("add.total", out.ok)
     if not out.ok:
         return
@@ -576,6 +589,7 @@ def s_add(vc):
     st.check("add", skip_vis=(0,))
     st.check_signals("add", before)
     entered = _in(t, st.view_items())
+    vc.ensure("add.shown_at_most_once", len([f for f in st.view_items() if f is t]) <= 1 and len(st.view_items()) == len(before) + (1 if entered else 0))
     vc.ensure("add.Sig.add_sent_iff_entered", [e[0] for e in st.log if e[0] in ("add", "remove", "update", "refresh")] == (["add"] if entered else []))
     vc.ensure("add.frame.other_flows_keep_their_place", [f for f in st.view_items() if f is not t] == before or all(a is c for a, c in zip([f for f in st.view_items() if f is not t], before)))
     if entered and foc_before is not None:
@@ -881,6 +895,8 @@ def _t2_ops(nflows):
     for i in range(nflows):
         ops += [("add", i), ("update", i), ("remove", i), ("mutate", i, "size"), ("mutate", i, "hide"), ("mutate", i, "mark"), ("mutate", i, "method"),
                 ("mutate_only", i, "size"), ("mutate_only", i, "method")]   # mutate_only: the flow changes but no hook/update() has run yet
+    # one add() call naming the same flow twice (and with another flow in between)
+    ops += [("add_batch", (0, 0)), ("add_batch", (1, 1)), ("add_batch", (2, 0, 2)), ("add_batch", (0, 1, 0))]
     ops += [("set_filter", 0), ("set_filter", 1), ("set_filter", 2), ("set_order", "time"), ("set_order", "size"), ("set_order", "method"), ("set_order", "url"),
             ("set_reversed", True), ("set_reversed", False), ("toggle_marked",), ("clear",), ("clear_not_marked",), ("focus_follow", True), ("focus_next",), ("go", -1)]
     return ops
@@ -936,6 +952,8 @@ def _t2_run(b, seq, ops):
                 if m["marked_only"] and not flows[op[1]].marked:
                     cls = "KF-C43-1"
                 v.add([flows[op[1]]])
+            elif op[0] == "add_batch":
+                v.add([flows[i] for i in op[1]])
             elif op[0] == "update":
                 if m["marked_only"] and not flows[op[1]].marked:
                     cls = "KF-C43-1"
@@ -1048,7 +1066,7 @@ def bounded(tier, seed):
               "attributes are mutated between updates: add, update, mutate+update, remove, set_filter (3 predicates), set_order (4 orders), "
               "set_reversed, toggle_marked, clear, clear_not_marked, focus_follow, focus moves. After every operation the view is compared with a "
               "reference model (Vis, Ord with the order's own generate() as the key, direction, index/getitem, Foc, Set, Sig). "
-              "distinct = distinct sequence; non-trivial = contains an add")
+              "add batches that name a flow twice; distinct = distinct sequence; non-trivial = contains an add")
     rnd = random.Random(seed)
     ix = {o: i for i, o in enumerate(ops)}
     P = (ix[("add", 0)], ix[("add", 1)], ix[("add", 2)])
